@@ -37,6 +37,8 @@ class G:
         return self.r.randint(0, hi)
 
     def nats(self, n, hi):
+        if n >= 2 and hi >= 1 and self.r.random() < 0.2:
+            return self.structured(n, hi + 1)
         return [self.r.randint(0, hi) for _ in range(n)]
 
     def size(self, hi=4):
@@ -62,11 +64,74 @@ class G:
             tab = [v] * n
         elif kind < 0.2 and n <= t:
             tab = self.r.sample(range(t), n)
+        elif kind < 0.42 and t > 0:
+            tab = self.structured(n, t)
         else:
             tab = [self.r.randrange(t) for _ in range(n)]
         return [tab, t]
 
+    def structured(self, n, t):
+        """tables with coincidences a uniform draw rarely produces: sorted, decreasing, rotations, involutions,
+        palindromes, values equal to the length / the largest value / the index"""
+        k = self.r.choice(["sorted", "rsorted", "arange", "rot", "invol", "palin", "lenval", "last", "steps", "twoval"])
+        if k == "sorted":
+            return sorted(self.r.randrange(t) for _ in range(n))
+        if k == "rsorted":
+            return sorted((self.r.randrange(t) for _ in range(n)), reverse=True)
+        if k == "arange":
+            return [i % t for i in range(n)]
+        if k == "rot":
+            r0 = self.r.randrange(max(n, 1))
+            return [(i + r0) % t for i in range(n)]
+        if k == "invol":
+            tab = [i % t for i in range(n)]
+            for i in range(0, min(n, t) - 1, 2):
+                if self.r.random() < 0.7:
+                    tab[i], tab[i + 1] = tab[i + 1], tab[i]
+            return tab
+        if k == "palin":
+            h = [self.r.randrange(t) for _ in range((n + 1) // 2)]
+            return (h + h[::-1][n % 2:])[:n]
+        if k == "lenval":
+            return [min(t - 1, self.r.choice([n, n - 1, t - 1, 0])) if self.r.random() < 0.6 else self.r.randrange(t)
+                    for _ in range(n)]
+        if k == "last":
+            return [t - 1 if self.r.random() < 0.5 else self.r.randrange(t) for _ in range(n)]
+        if k == "steps":
+            return [min(t - 1, i // 2) for i in range(n)]
+        a, b = self.r.randrange(t), self.r.randrange(t)
+        return [a if self.r.random() < 0.5 else b for _ in range(n)]
+
+    def related(self, tab, t):
+        """a second table related to `tab`: equal, reversed, rotated, one entry changed, inverse permutation"""
+        k = self.r.choice(["eq", "rev", "rot", "one", "inv", "sorted"])
+        tab = list(tab)
+        if not tab or t == 0:
+            return tab
+        if k == "rev":
+            return tab[::-1]
+        if k == "rot":
+            return tab[1:] + tab[:1]
+        if k == "one":
+            i = self.r.randrange(len(tab))
+            tab[i] = self.r.randrange(t)
+            return tab
+        if k == "inv" and sorted(tab) == list(range(len(tab))):
+            inv = [0] * len(tab)
+            for i, v in enumerate(tab):
+                inv[v] = i
+            return inv
+        if k == "sorted":
+            return sorted(tab)
+        return tab
+
     def sizes(self, n, hi=3):
+        c = self.r.random()
+        if c < 0.08:
+            k = self.r.choice([1, 2, 2, 3])
+            return [k] * n                      # all segments of equal length
+        if c < 0.12:
+            return [n if i == self.r.randrange(max(n, 1)) else 0 for i in range(n)]
         if self.big():
             return [self.r.choice([0, 0, 1, 2, 4, 5, 6]) for _ in range(n)]
         return [self.r.choice([0, 1, 1, 2, 2, 3][: hi + 3]) for _ in range(n)]
@@ -101,12 +166,31 @@ class G:
         w = [self.r.randrange(labels) for _ in range(nn)]
         x = [self.r.randrange(elabels) for _ in range(ne)]
 
-        def side():
-            sz = [self.r.randint(0, maxar) if nn > 0 else 0 for _ in range(ne)]
-            vals = [self.r.randrange(nn) for _ in range(sum(sz))]
-            return [[sz, sum(sz) + 1], [vals, nn]]
+        def lists():
+            ll = [[self.r.randrange(nn) for _ in range(self.r.randint(0, maxar))] if nn > 0 else [] for _ in range(ne)]
+            c = self.r.random()
+            if ne >= 2 and c < 0.2:             # two hyperedges with identical (or reversed / rotated) lists
+                i, j = self.r.sample(range(ne), 2)
+                ll[j] = self.related(ll[i], nn) if self.r.random() < 0.5 else list(ll[i])
+            elif ne >= 1 and nn > 0 and c < 0.3:  # sorted / consecutive nodes
+                i = self.r.randrange(ne)
+                ll[i] = self.structured(len(ll[i]), nn)
+            return ll
 
-        return [side(), side(), w, x]
+        def enc(ll):
+            sz = [len(l) for l in ll]
+            return [[sz, sum(sz) + 1], [[v for l in ll for v in l], nn]]
+
+        ss, tt = lists(), lists()
+        if ne >= 1 and self.r.random() < 0.1:   # an edge whose targets are its sources (in some order)
+            i = self.r.randrange(ne)
+            tt[i] = self.related(ss[i], nn)
+        if ne >= 2 and self.r.random() < 0.1:   # parallel edges: same sources and targets, maybe same label
+            i, j = self.r.sample(range(ne), 2)
+            ss[j], tt[j] = list(ss[i]), list(tt[i])
+            if self.r.random() < 0.5:
+                x[j] = x[i]
+        return [enc(ss), enc(tt), w, x]
 
     def ohg(self, nn=None, ne=None, ni=None, no=None, **kw):
         h = self.hg(nn, ne, **kw)
@@ -119,6 +203,14 @@ class G:
             ni = no = 0
         s = [[self.r.randrange(n) for _ in range(ni)], n]
         t = [[self.r.randrange(n) for _ in range(no)], n]
+        c = self.r.random()
+        if n > 0 and c < 0.12:
+            t = [self.related(s[0], n), n]      # target boundary equal / reversed / rotated source boundary
+        elif n > 0 and c < 0.2:
+            s = [self.structured(ni, n), n]
+            t = [self.structured(no, n), n]
+        elif n > 0 and c < 0.25 and ni > 0 and no > 0:
+            t[0][-1] = s[0][0]                  # first input is also the last output
         return [s, t, h]
 
     def ohg_with_source(self, types, **kw):
@@ -155,6 +247,12 @@ class G:
             a = self.r.randint(0, maxar) if nn else 0
             b = self.r.randint(0, maxar) if nn else 0
             adj.append([[self.r.randrange(nn) for _ in range(a)], [self.r.randrange(nn) for _ in range(b)]])
+        if ne >= 2 and self.r.random() < 0.15:
+            i, j = self.r.sample(range(ne), 2)
+            adj[j] = [list(adj[i][0]), self.related(adj[i][1], nn)]
+        if ne >= 1 and self.r.random() < 0.1:
+            i = self.r.randrange(ne)
+            adj[i][1] = self.related(adj[i][0], nn)
         if nq is None:
             nq = self.r.choice([0, 0, 1, 2, 3, 5])
         q0, q1 = [], []
@@ -179,7 +277,14 @@ class G:
             no = self.size(3)
         if n == 0:
             ni = no = 0
-        return [[self.r.randrange(n) for _ in range(ni)], [self.r.randrange(n) for _ in range(no)], h]
+        src = [self.r.randrange(n) for _ in range(ni)]
+        tgt = [self.r.randrange(n) for _ in range(no)]
+        c = self.r.random()
+        if n > 0 and c < 0.12:
+            tgt = self.related(src, n)
+        elif n > 0 and c < 0.2:
+            src, tgt = self.structured(ni, n), self.structured(no, n)
+        return [src, tgt, h]
 
 
 def ohg_types(f):
